@@ -1,5 +1,369 @@
-//! Full-decode correspondence cases (model of the nine decoders vs the
-//! implementation).  Filled in once the composed decoder model exists.
+//! Whole-file decoding with each of the nine decoders: canonical dumps of the
+//! decoded values (same layout as the `dump_*` functions of coq/Model/Sections.v,
+//! ControlPoints.v, HitObjectLine.v, Decoders.v) and correspondence cases for
+//! the `dec` model entry.
+use crate::gen_osu::{self, Opts};
 use crate::out::Out;
+use crate::proto::Line;
+use crate::rng::Rng;
+use crate::util::guarded;
+use rosu_map::section::{
+    colors::Colors,
+    difficulty::Difficulty,
+    editor::Editor,
+    events::Events,
+    general::General,
+    hit_objects::{
+        hit_samples::{HitSampleDefaultName, HitSampleInfo, HitSampleInfoName},
+        HitObject, HitObjectKind, HitObjects, PathControlPoint, SplineType,
+    },
+    metadata::Metadata,
+    timing_points::{ControlPoints, TimingPoints},
+};
+use rosu_map::Beatmap;
 
-pub fn cases_for(_entry: &str, _tier: &str, _seed: u64, _out: &mut Out) {}
+pub const DECODERS: [&str; 9] =
+    ["General", "Editor", "Metadata", "Difficulty", "Events", "Colors", "TimingPoints", "HitObjects", "Beatmap"];
+
+#[allow(clippy::too_many_arguments)]
+fn general(
+    l: &mut Line,
+    audio_file: &str,
+    audio_lead_in: f64,
+    preview_time: i32,
+    bank: i32,
+    volume: i32,
+    stack: f32,
+    mode: i32,
+    flags: [bool; 5],
+    countdown: i32,
+    countdown_offset: i32,
+) {
+    l.s(audio_file).f64(audio_lead_in).i(preview_time as i128).i(bank as i128).i(volume as i128).f32(stack).i(mode as i128);
+    for f in flags {
+        l.b(f);
+    }
+    l.i(countdown as i128).i(countdown_offset as i128);
+}
+
+macro_rules! dump_general_of {
+    ($l:expr, $v:expr) => {
+        general(
+            $l,
+            &$v.audio_file,
+            $v.audio_lead_in,
+            $v.preview_time,
+            $v.default_sample_bank as i32,
+            $v.default_sample_volume,
+            $v.stack_leniency,
+            $v.mode as i32,
+            [
+                $v.letterbox_in_breaks,
+                $v.special_style,
+                $v.widescreen_storyboard,
+                $v.epilepsy_warning,
+                $v.samples_match_playback_rate,
+            ],
+            $v.countdown as i32,
+            $v.countdown_offset,
+        )
+    };
+}
+
+macro_rules! dump_editor_of {
+    ($l:expr, $v:expr) => {{
+        $l.i($v.bookmarks.len() as i128);
+        for b in &$v.bookmarks {
+            $l.i(*b as i128);
+        }
+        $l.f64($v.distance_spacing).i($v.beat_divisor as i128).i($v.grid_size as i128).f64($v.timeline_zoom);
+    }};
+}
+
+macro_rules! dump_metadata_of {
+    ($l:expr, $v:expr) => {{
+        $l.s(&$v.title).s(&$v.title_unicode).s(&$v.artist).s(&$v.artist_unicode).s(&$v.creator).s(&$v.version).s(&$v.source).s(&$v.tags);
+        $l.i($v.beatmap_id as i128).i($v.beatmap_set_id as i128);
+    }};
+}
+
+macro_rules! dump_difficulty_of {
+    ($l:expr, $v:expr) => {{
+        $l.f32($v.hp_drain_rate).f32($v.circle_size).f32($v.overall_difficulty).f32($v.approach_rate).f64($v.slider_multiplier).f64($v.slider_tick_rate);
+    }};
+}
+
+macro_rules! dump_events_of {
+    ($l:expr, $v:expr) => {{
+        $l.s(&$v.background_file).i($v.breaks.len() as i128);
+        for b in &$v.breaks {
+            $l.f64(b.start_time).f64(b.end_time);
+        }
+    }};
+}
+
+macro_rules! dump_colors_of {
+    ($l:expr, $v:expr) => {{
+        $l.i($v.custom_combo_colors.len() as i128);
+        for c in &$v.custom_combo_colors {
+            $l.i(c.red() as i128).i(c.green() as i128).i(c.blue() as i128).i(c.alpha() as i128);
+        }
+        $l.i($v.custom_colors.len() as i128);
+        for c in &$v.custom_colors {
+            $l.s(&c.name).i(c.color.red() as i128).i(c.color.green() as i128).i(c.color.blue() as i128).i(c.color.alpha() as i128);
+        }
+    }};
+}
+
+pub fn dump_cp(l: &mut Line, c: &ControlPoints) {
+    crate::registry::c13::dump_cp(l, c);
+}
+
+pub fn dump_sample(l: &mut Line, s: &HitSampleInfo) {
+    match &s.name {
+        HitSampleInfoName::Default(n) => {
+            l.i(0).i(match n {
+                HitSampleDefaultName::Normal => 0,
+                HitSampleDefaultName::Whistle => 1,
+                HitSampleDefaultName::Finish => 2,
+                HitSampleDefaultName::Clap => 3,
+            });
+        }
+        HitSampleInfoName::File(f) => {
+            l.i(1).s(f);
+        }
+    }
+    l.i(s.bank as i128);
+    match s.suffix {
+        Some(x) => {
+            l.i(1).i(x.get() as i128);
+        }
+        None => {
+            l.i(0);
+        }
+    }
+    l.i(s.volume as i128).i(s.custom_sample_bank as i128).b(s.bank_specified).b(s.is_layered);
+}
+
+pub fn dump_samples(l: &mut Line, v: &[HitSampleInfo]) {
+    l.i(v.len() as i128);
+    for s in v {
+        dump_sample(l, s);
+    }
+}
+
+pub fn dump_pcps(l: &mut Line, v: &[PathControlPoint]) {
+    l.i(v.len() as i128);
+    for p in v {
+        l.f32(p.pos.x).f32(p.pos.y);
+        match p.path_type {
+            Some(t) => {
+                l.i(1).i(match t.kind {
+                    SplineType::Catmull => 0,
+                    SplineType::BSpline => 1,
+                    SplineType::Linear => 2,
+                    SplineType::PerfectCurve => 3,
+                });
+                match t.degree {
+                    Some(d) => {
+                        l.i(1).i(d.get() as i128);
+                    }
+                    None => {
+                        l.i(0);
+                    }
+                }
+            }
+            None => {
+                l.i(0);
+            }
+        }
+    }
+}
+
+/// a finished hit object; for sliders the curve distance stands in for the
+/// (unobservable) path mode
+pub fn dump_object_v(l: &mut Line, h: &mut HitObject) {
+    l.f64(h.start_time);
+    match &mut h.kind {
+        HitObjectKind::Circle(c) => {
+            l.i(0).f32(c.pos.x).f32(c.pos.y).b(c.new_combo).i(c.combo_offset as i128);
+        }
+        HitObjectKind::Slider(s) => {
+            l.i(1).f32(s.pos.x).f32(s.pos.y).b(s.new_combo).i(s.combo_offset as i128);
+            let dist = s.path.curve().dist();
+            l.f64(dist);
+            dump_pcps(l, s.path.control_points());
+            match s.path.expected_dist() {
+                Some(d) => {
+                    l.i(1).f64(d);
+                }
+                None => {
+                    l.i(0);
+                }
+            }
+            l.i(s.node_samples.len() as i128);
+            for n in &s.node_samples {
+                dump_samples(l, n);
+            }
+            l.i(s.repeat_count as i128).f64(s.velocity);
+        }
+        HitObjectKind::Spinner(s) => {
+            l.i(2).f32(s.pos.x).f32(s.pos.y).f64(s.duration).b(s.new_combo);
+        }
+        HitObjectKind::Hold(hd) => {
+            l.i(3).f32(hd.pos_x).f64(hd.duration);
+        }
+    }
+    dump_samples(l, &h.samples);
+}
+
+macro_rules! dump_hov_of {
+    ($l:expr, $v:expr) => {{
+        dump_general_of!($l, $v);
+        dump_difficulty_of!($l, $v);
+        dump_events_of!($l, $v);
+        dump_cp($l, &$v.control_points);
+        $l.i($v.hit_objects.len() as i128);
+        for h in $v.hit_objects.iter_mut() {
+            dump_object_v($l, h);
+        }
+    }};
+}
+
+/// decode `bytes` with decoder `id` and dump the value; `Err` on io error / panic
+pub fn decode_dump(id: usize, bytes: &[u8]) -> Result<String, String> {
+    let r = guarded(|| -> Result<String, String> {
+        let mut l = Line::new();
+        match id {
+            0 => {
+                let v: General = rosu_map::from_bytes(bytes).map_err(|e| format!("io:{:?}", e.kind()))?;
+                dump_general_of!(&mut l, v);
+            }
+            1 => {
+                let v: Editor = rosu_map::from_bytes(bytes).map_err(|e| format!("io:{:?}", e.kind()))?;
+                dump_editor_of!(&mut l, v);
+            }
+            2 => {
+                let v: Metadata = rosu_map::from_bytes(bytes).map_err(|e| format!("io:{:?}", e.kind()))?;
+                dump_metadata_of!(&mut l, v);
+            }
+            3 => {
+                let v: Difficulty = rosu_map::from_bytes(bytes).map_err(|e| format!("io:{:?}", e.kind()))?;
+                dump_difficulty_of!(&mut l, v);
+            }
+            4 => {
+                let v: Events = rosu_map::from_bytes(bytes).map_err(|e| format!("io:{:?}", e.kind()))?;
+                dump_events_of!(&mut l, v);
+            }
+            5 => {
+                let v: Colors = rosu_map::from_bytes(bytes).map_err(|e| format!("io:{:?}", e.kind()))?;
+                dump_colors_of!(&mut l, v);
+            }
+            6 => {
+                let v: TimingPoints = rosu_map::from_bytes(bytes).map_err(|e| format!("io:{:?}", e.kind()))?;
+                l.i(0);
+                dump_general_of!(&mut l, v);
+                dump_cp(&mut l, &v.control_points);
+            }
+            7 => {
+                let mut v: HitObjects = rosu_map::from_bytes(bytes).map_err(|e| format!("io:{:?}", e.kind()))?;
+                l.i(0);
+                dump_hov_of!(&mut l, v);
+            }
+            _ => {
+                let mut v: Beatmap = rosu_map::from_bytes(bytes).map_err(|e| format!("io:{:?}", e.kind()))?;
+                l.i(0);
+                l.i(v.format_version as i128);
+                dump_editor_of!(&mut l, v);
+                dump_metadata_of!(&mut l, v);
+                dump_colors_of!(&mut l, v);
+                dump_hov_of!(&mut l, v);
+            }
+        }
+        Ok(l.0)
+    });
+    match r {
+        Ok(x) => x,
+        Err(p) => Err(format!("panic:{}", p)),
+    }
+}
+
+/// the per-decoder dumps of the fields shared with Beatmap, taken from a Beatmap decode
+pub fn beatmap_projection(id: usize, bytes: &[u8]) -> Result<String, String> {
+    let r = guarded(|| -> Result<String, String> {
+        let mut v: Beatmap = rosu_map::from_bytes(bytes).map_err(|e| format!("io:{:?}", e.kind()))?;
+        let mut l = Line::new();
+        match id {
+            0 => dump_general_of!(&mut l, v),
+            1 => dump_editor_of!(&mut l, v),
+            2 => dump_metadata_of!(&mut l, v),
+            3 => dump_difficulty_of!(&mut l, v),
+            4 => dump_events_of!(&mut l, v),
+            5 => dump_colors_of!(&mut l, v),
+            6 => {
+                l.i(0);
+                dump_general_of!(&mut l, v);
+                dump_cp(&mut l, &v.control_points);
+            }
+            _ => {
+                l.i(0);
+                dump_hov_of!(&mut l, v);
+            }
+        }
+        Ok(l.0)
+    });
+    match r {
+        Ok(x) => x,
+        Err(p) => Err(format!("panic:{}", p)),
+    }
+}
+
+/// which decoders the model entry `dec` currently covers
+pub const MODEL_DECODERS: &[usize] = &[0, 1, 2, 3, 4, 5, 6];
+
+/// text whose byte layer is trivial (valid UTF-8, no BOM, no code unit issues):
+/// the byte->text layer is C10/C08's business
+pub fn model_case(id: usize, text: &str, out: &mut Out, origin: &str) {
+    let mut case = Line::entry("dec");
+    case.i(id as i128);
+    case.chars(text);
+    let res = match decode_dump(id, text.as_bytes()) {
+        Ok(s) => s,
+        Err(e) => format!("<{}>", e),
+    };
+    let nlines = text.lines().count();
+    out.count(&format!("dec.{}", DECODERS[id]));
+    out.case(case.0, res, format!("{} decoder={} text={:?}", origin, DECODERS[id], text), nlines >= 5 && text.contains('['));
+}
+
+pub fn texts(tier: &str, seed: u64, mut f: impl FnMut(&str, &str)) {
+    let mut r = Rng::new(seed ^ 0xDEC0);
+    let n = if tier == "thorough" { 3000 } else { 220 };
+    for i in 0..n {
+        let o = Opts { level: (i % 3) as u8, chronological: i % 4 != 0, max_objects: 10, ..Opts::default() };
+        let mut lines = gen_osu::file_lines(&mut r, &o);
+        // indentation / decoration of whole lines (C07: same skip rule in all decoders)
+        if i % 5 == 0 {
+            for l in lines.iter_mut() {
+                if !l.is_empty() && r.chance(1, 6) {
+                    *l = match r.below(4) {
+                        0 => format!(" {}", l),
+                        1 => format!("\t{}", l),
+                        2 => format!("_{}", l),
+                        _ => format!("{}  ", l),
+                    };
+                }
+            }
+        }
+        let nl = if i % 7 == 0 { "\r\n" } else { "\n" };
+        f(&(lines.join(nl) + nl), &format!("grammar-level{}", o.level));
+    }
+}
+
+pub fn cases_for(_entry: &str, tier: &str, seed: u64, out: &mut Out) {
+    texts(tier, seed, |t, origin| {
+        for &id in MODEL_DECODERS {
+            model_case(id, t, out, origin);
+        }
+    });
+}
